@@ -56,6 +56,28 @@ Definition ucs2_decode (b : list Z) : res (list Z) :=
   | None => Err EXN_UnicodeDecodeError
   end.
 
+(* UCS2Codec.decode as the library calls it: utf_16_be_decode(input, errors) with final=False, so a
+   trailing odd octet or a trailing high surrogate is incomplete input that is silently left unconsumed *)
+Fixpoint units_of_bytes_partial (b : list Z) : list Z :=
+  match b with
+  | h :: l :: t => (h * 256 + l) :: units_of_bytes_partial t
+  | _ => []
+  end.
+Fixpoint units_decode_partial (us : list Z) : option (list Z) :=
+  match us with
+  | [] => Some []
+  | u :: t =>
+    if is_high u then
+      match t with
+      | l :: t' => if is_low l then option_map (cons (65536 + (u - 55296) * 1024 + (l - 56320))) (units_decode_partial t') else None
+      | [] => Some []
+      end
+    else if is_low u then None
+    else option_map (cons u) (units_decode_partial t)
+  end.
+Definition ucs2_decode_partial (b : list Z) : res (list Z) :=
+  match units_decode_partial (units_of_bytes_partial b) with Some s => Ok s | None => Err EXN_UnicodeDecodeError end.
+
 (* ---- detect_format: 0 = 'gsm0338', 8 = 'ucs2' (the data_coding values) ---- *)
 Definition detect_format (text : list Z) : Z := if is_gsm_text text then 0 else 8.
 
